@@ -1,1 +1,194 @@
-/- C10 — property theorems (to be written) -/
+/-
+  C10 — value-returning operations never disturb or alias their operands; readers are pure.
+
+  The Lean part of C10 is the *heap* argument (FtModel/Heap.lean): objects with fields pointing
+  to objects, `Reach`, the observer's `view`, mutation histories attributed to two sides, and the
+  pickle round trip `deepcopy`.  The per-call hypotheses of these theorems (the operand's snapshot
+  is unchanged; the object sets reachable from operand and result are closed and disjoint; every
+  follow-up mutation writes only objects of its own side) are evaluated by the driver, with these
+  very definitions (`sepB`, `validB`, `agreeOnB`, `reachList`), on the object graph of the real
+  Python objects for every operation of the two families (harness/props/c10.py).
+
+  Property theorems only; helper lemmas live in FtProofs/Lemmas/HeapLemmas.lean.
+-/
+import FtProofs.Lemmas.HeapLemmas
+set_option linter.unusedSectionVars false
+set_option linter.unusedVariables false
+namespace Ft
+open Ft.C10
+
+section
+variable {δ : Type}
+
+/-- The executable separation check is sound for reachability: if `sepB` holds and the roots lie
+    in their sides' sets, no object is reachable from both roots. -/
+theorem heap_sep_reach_disjoint (st : St δ) (hsep : sepB st = true) (ra rb : Nat)
+    (ha : ra ∈ st.sa) (hb : rb ∈ st.sb) : ¬ ∃ x, Reach st.heap ra x ∧ Reach st.heap rb x := by
+  obtain ⟨hc, hd⟩ := (sepB_iff st).1 hsep
+  rintro ⟨x, hxa, hxb⟩
+  have h1 : x ∈ st.mine false := reach_closed st.heap _ (hc false) (by simpa [St.mine] using ha) hxa
+  have h2 : x ∈ st.mine true := reach_closed st.heap _ (hc true) (by simpa [St.mine] using hb) hxb
+  exact hd false x h1 (by simpa using h2)
+
+/-- … and the executable reach set is exact from below: everything `reachList` returns really is
+    reachable from one of the roots (so a reported shared object is a real alias). -/
+theorem heap_reachList_reachable (h : Heap δ) (n : Nat) (roots : List Nat) (x : Nat)
+    (hx : x ∈ reachList h n roots) : ∃ r ∈ roots, Reach h r x :=
+  reachList_from h roots n roots (fun y hy => ⟨y, hy, Reach.refl y⟩) x hx
+
+/-- Separation is an invariant of every history that obeys the discipline. -/
+theorem heap_sep_preserved (st : St δ) (ws : List (Step δ)) (hsep : sepB st = true)
+    (hv : validB st ws = true) : sepB (runAll st ws) = true :=
+  (sepB_iff _).2 (sep_run ws st ((sepB_iff st).1 hsep) hv)
+
+/-- Frame, one step: a mutation performed by one side is invisible from every root of the other. -/
+theorem heap_frame_step (st : St δ) (w : Step δ) (hsep : sepB st = true)
+    (hok : stepOkB st w = true) (r : Nat) (hr : r ∈ st.mine (!w.side)) (n : Nat) :
+    view (applyStep st w).heap n r = view st.heap n r := by
+  obtain ⟨hc, hd⟩ := (sepB_iff st).1 hsep
+  obtain ⟨hnt, _, _⟩ := stepOk_unpack st w hok
+  symm
+  apply view_congr st.heap (applyStep st w).heap (st.mine (!w.side)) (hc _) _ n r hr
+  intro x hx
+  rw [heap_apply, get_set_ne]
+  exact fun h => hnt (h ▸ hx)
+
+/-- Frame, histories: after ANY interleaving of mutations of the two sides that obeys the
+    discipline, what side `s` sees from any of its roots is exactly what it would see had only its
+    own mutations been performed — the other side's whole history is invisible. -/
+theorem heap_frame_run (st : St δ) (ws : List (Step δ)) (hsep : sepB st = true)
+    (hv : validB st ws = true) (s : Bool) (r : Nat) (hr : r ∈ st.mine s) (n : Nat) :
+    view (runAll st ws).heap n r = view (runOnly s st.heap ws) n r := by
+  have hS := sep_run ws st ((sepB_iff st).1 hsep) hv
+  obtain ⟨hc, hd⟩ := hS
+  apply view_congr _ _ ((runAll st ws).mine s) (hc s) _ n r (mine_mono_run ws st s r hr)
+  intro x hx
+  exact agree_run s ws st st.heap (fun _ _ => rfl) x (hd s x hx)
+
+/-- Frame, one-sided corollary: if only the other side mutates, a side's view does not change. -/
+theorem heap_frame_silent (st : St δ) (ws : List (Step δ)) (hsep : sepB st = true)
+    (hv : validB st ws = true) (s : Bool) (hother : ∀ w ∈ ws, w.side ≠ s)
+    (r : Nat) (hr : r ∈ st.mine s) (n : Nat) :
+    view (runAll st ws).heap n r = view st.heap n r := by
+  rw [heap_frame_run st ws hsep hv s r hr n, runOnly_none s ws st.heap hother]
+
+/-- `pickle.loads(pickle.dumps(x))`: the copy of a closed object set at fresh addresses leaves
+    every old object as it was, is separated from the original, and is structurally identical. -/
+theorem deepcopy_separates (ρ : Nat → Nat) (h : Heap δ) (S : List Nat)
+    (hc : closedB h S = true) (hf : freshRenB ρ h S = true) :
+    (∀ x, x ∉ S.map ρ → get (deepcopy ρ h S) x = get h x) ∧
+    sepB ⟨deepcopy ρ h S, S, S.map ρ⟩ = true ∧
+    (∀ n a, a ∈ S → view (deepcopy ρ h S) n (ρ a) = view h n a) ∧
+    (∀ n a, a ∈ S → view (deepcopy ρ h S) n a = view h n a) := by
+  have hc' := (closedB_iff h S).1 hc
+  have hf' := (freshRenB_iff ρ h S).1 hf
+  refine ⟨fun x hx => deepcopy_old ρ h S x hx, (sepB_iff _).2 (deepcopy_sep ρ h S hc' hf'),
+    deepcopy_view ρ h S hc' hf', ?_⟩
+  intro n a ha
+  symm
+  apply view_congr h (deepcopy ρ h S) S hc' _ n a ha
+  intro x hx
+  symm
+  apply deepcopy_old
+  intro hm
+  obtain ⟨b, hb, rfl⟩ := List.mem_map.1 hm
+  exact (hf'.1 b hb).2 hx
+
+/-- The shape of every value-returning operation of the library (`_splitGeneric`, `mergeRanks`,
+    `Tensor.updateCoords / updatePayloads / swizzleRanks / _modifyRoot`, `copy`, `deepcopy`):
+    deep-copy the operand, then build the result by mutations on the copy's side.  The operand's
+    view is unchanged by the whole operation, operand and result stay separated, and therefore
+    (by `heap_frame_run`) every later history on either side is invisible to the other. -/
+theorem value_op_safe (ρ : Nat → Nat) (h : Heap δ) (S : List Nat)
+    (hc : closedB h S = true) (hf : freshRenB ρ h S = true) (ws : List (Step δ))
+    (hres : ∀ w ∈ ws, w.side = true)
+    (hv : validB ⟨deepcopy ρ h S, S, S.map ρ⟩ ws = true) :
+    (∀ n r, r ∈ S → view (runAll ⟨deepcopy ρ h S, S, S.map ρ⟩ ws).heap n r = view h n r) ∧
+    sepB (runAll ⟨deepcopy ρ h S, S, S.map ρ⟩ ws) = true := by
+  obtain ⟨_, hsep, _, hsame⟩ := deepcopy_separates ρ h S hc hf
+  refine ⟨?_, heap_sep_preserved _ ws hsep hv⟩
+  intro n r hr
+  rw [heap_frame_silent _ ws hsep hv false (fun w hw => by rw [hres w hw]; simp) r
+    (by simpa [St.mine] using hr) n]
+  exact hsame n r hr
+
+/-- Readers (`getPayload` / `_createDefault(addtorank=False)`, non-reference iteration,
+    co-iteration, `==`, counting, shape queries, printing, dumping, footprints, rendering) only
+    allocate temporaries (which may well reference the operand's objects): ANY history that never
+    writes an object of the operand's closed set leaves the operand's view from every root exactly
+    as it was. -/
+theorem reader_pure (h : Heap δ) (S : List Nat) (hc : closedB h S = true) (ws : List (Step δ))
+    (hout : ∀ w ∈ ws, w.addr ∉ S) (r : Nat) (hr : r ∈ S) (n : Nat) :
+    view (writeAll h ws) n r = view h n r := by
+  symm
+  apply view_congr h (writeAll h ws) S ((closedB_iff h S).1 hc) _ n r hr
+  intro x hx
+  exact (writeAll_outside S ws h h hout (fun _ _ => rfl) x hx).symm
+
+end
+
+/-! ### non-vacuity: the hypotheses are satisfiable by non-trivial values, and necessary -/
+
+section examples
+
+/-- a fiber object 0 with a coords list 1 and a payloads list 2 holding two boxes 3, 4 -/
+def c10_exHeap : Heap String :=
+  [(0, ⟨"Fiber", [1, 2]⟩), (1, ⟨"[0,5]", []⟩), (2, ⟨"list", [3, 4]⟩),
+   (3, ⟨"Payload 7", []⟩), (4, ⟨"Payload 9", []⟩)]
+
+def c10_exS : List Nat := [0, 1, 2, 3, 4]
+def c10_exρ : Nat → Nat := fun a => a + 10
+
+example : closedB c10_exHeap c10_exS = true := by decide
+example : freshRenB c10_exρ c10_exHeap c10_exS = true := by decide
+example : reachList c10_exHeap 5 [0] = c10_exS := by decide
+
+/-- the copy, then a result-side history: overwrite the copied box 13, allocate a new box 20 and
+    hang it into the copied payloads list -/
+def c10_exSteps : List (Step String) :=
+  [⟨true, 13, ⟨"Payload 99", []⟩⟩, ⟨true, 20, ⟨"Payload 1", []⟩⟩, ⟨true, 12, ⟨"list", [13, 14, 20]⟩⟩]
+
+example : validB ⟨deepcopy c10_exρ c10_exHeap c10_exS, c10_exS, c10_exS.map c10_exρ⟩ c10_exSteps = true := by
+  decide
+
+example : view (runAll ⟨deepcopy c10_exρ c10_exHeap c10_exS, c10_exS, c10_exS.map c10_exρ⟩ c10_exSteps).heap 4 0
+    = view c10_exHeap 4 0 :=
+  (value_op_safe c10_exρ c10_exHeap c10_exS (by decide) (by decide) c10_exSteps (by decide) (by decide)).1 4 0
+    (by decide)
+
+/-- an interleaved history of both sides after the copy -/
+def c10_exMixed : List (Step String) :=
+  [⟨true, 13, ⟨"Payload 99", []⟩⟩, ⟨false, 3, ⟨"Payload -1", []⟩⟩, ⟨true, 12, ⟨"list", [13]⟩⟩,
+   ⟨false, 21, ⟨"Payload 5", []⟩⟩, ⟨false, 2, ⟨"list", [3, 4, 21]⟩⟩]
+
+example : validB ⟨deepcopy c10_exρ c10_exHeap c10_exS, c10_exS, c10_exS.map c10_exρ⟩ c10_exMixed = true := by
+  decide
+
+/-- the views really change (the history is not a no-op) … -/
+example : view (runAll ⟨deepcopy c10_exρ c10_exHeap c10_exS, c10_exS, c10_exS.map c10_exρ⟩ c10_exMixed).heap 4 0
+    ≠ view c10_exHeap 4 0 := by decide
+example : view (runAll ⟨deepcopy c10_exρ c10_exHeap c10_exS, c10_exS, c10_exS.map c10_exρ⟩ c10_exMixed).heap 4 10
+    ≠ view c10_exHeap 4 0 := by decide
+
+/-- What `Fiber.unflattenRanks` does at fiber level (fiber.py:4444-4516: the new fibers are built
+    around the operand's own payload objects, no copy): result fiber 10 with its own lists 11, 12
+    but the operand's boxes 3, 4.  The separation check fails, the discipline rejects the result
+    side's write to box 3, and that write IS visible from the operand: the disjointness hypothesis
+    of the frame theorems is necessary. -/
+def c10_exAlias : Heap String :=
+  [(10, ⟨"Fiber", [11, 12]⟩), (11, ⟨"[0,5]", []⟩), (12, ⟨"list", [3, 4]⟩)] ++ c10_exHeap
+
+example : sepB ⟨c10_exAlias, reachList c10_exAlias 5 [0], reachList c10_exAlias 5 [10]⟩ = false := by decide
+example : stepOkB ⟨c10_exAlias, reachList c10_exAlias 5 [0], reachList c10_exAlias 5 [10]⟩
+    ⟨true, 3, ⟨"Payload 99", []⟩⟩ = false := by decide
+example : view (set c10_exAlias 3 ⟨"Payload 99", []⟩) 4 0 ≠ view c10_exAlias 4 0 := by decide
+
+/-- a reader that allocates two temporaries: a default box, and a default fiber that points to it
+    and (like `_createDefault(addtorank=False)`, whose fiber's owner is the operand's rank) to an
+    object of the operand -/
+example : view (writeAll c10_exHeap
+    [⟨true, 30, ⟨"Payload 0", []⟩⟩, ⟨true, 31, ⟨"Fiber", [30, 2]⟩⟩]) 4 0 = view c10_exHeap 4 0 :=
+  reader_pure c10_exHeap c10_exS (by decide) _ (by decide) 0 (by decide) 4
+
+end examples
+end Ft
